@@ -33,6 +33,6 @@ def containedB (D : Path) (s0 s : FS) : Bool := outsideUnchangedB D s0 s && link
 /-- hypothesis of the partial theorem: no relative link target has a ".." component (finding 37: the lexical
 `TargetOutsideRoot` accepts `t → s/..` although `s` may be a link to the root of the target directory) -/
 def noDotDotTargets (es : List TarEntry) : Bool :=
-  es.all fun e => !(e.typ = 'l' || e.typ = 'h') || GoPath.isAbs e.link || !(GoPath.comps e.link).contains ".."
+  es.all fun e => !(e.typ = 'l') || e.linkAbs || !e.linkComps.contains ".."
 
 end Scalibr.Unpack
